@@ -106,19 +106,19 @@ theorem getN_short_iff (b0 : Nat) (rest : List Nat) (n : Int) (h : n ≤ (b0 :: 
           · rw [if_pos c4]; simp; omega
           · rw [if_neg c4, if_pos hb]; simp; omega
 
-theorem tgetB_no_fault (bs : List Nat) : tgetB bs ≠ .fault := by
+theorem tgetB_no_fault (bs : List Nat) : tgetB bs bs.length ≠ .fault := by
   unfold tgetB
   apply getN_no_fault
   have : min bs.length int32Max ≤ bs.length := Nat.min_le_left _ _
   exact_mod_cast this
 
-theorem tgetB_ok_le (bs : List Nat) (v l : Nat) (h : tgetB bs = .ok v l) : l ≤ bs.length ∧ 1 ≤ l := by
+theorem tgetB_ok_le (bs : List Nat) (v l : Nat) (h : tgetB bs bs.length = .ok v l) : l ≤ bs.length ∧ 1 ≤ l := by
   unfold tgetB at h
   have := getN_ok_le _ _ _ _ h
   have h2 : min bs.length int32Max ≤ bs.length := Nat.min_le_left _ _
   omega
 
-theorem readEntries_no_fault (k : Nat) (bs : List Nat) : readEntries k bs ≠ .fault := by
+theorem readEntries_no_fault (k : Nat) (bs : List Nat) : readEntries k bs bs.length ≠ .fault := by
   induction k generalizing bs with
   | zero => simp [readEntries]
   | succ k ih =>
@@ -127,37 +127,47 @@ theorem readEntries_no_fault (k : Nat) (bs : List Nat) : readEntries k bs ≠ .f
     split
     · contradiction
     · simp
-    · split
+    · rename_i v w _
+      split
       · simp
-      · have := ih (bs.drop ‹Nat›)
+      · have := ih (bs.drop w)
+        rw [List.length_drop] at this
         split
         · contradiction
         · simp
         · simp
 
-theorem readEntries_rest_le (k : Nat) (bs d r : List Nat) (h : readEntries k bs = .ok (d, r)) :
-    r.length ≤ bs.length := by
-  induction k generalizing bs d r with
-  | zero => simp [readEntries] at h; rw [h.2]; exact Nat.le_refl _
+/-- the remaining-length bookkeeping is right: what `readEntries` hands back is the length of the rest -/
+theorem readEntries_rem (k : Nat) (bs d r : List Nat) (rr : Nat) (h : readEntries k bs bs.length = .ok (d, r, rr)) :
+    rr = r.length ∧ r.length ≤ bs.length := by
+  induction k generalizing bs d r rr with
+  | zero =>
+    simp [readEntries] at h
+    obtain ⟨_, h2, h3⟩ := h
+    subst h2; subst h3
+    exact ⟨rfl, Nat.le_refl _⟩
   | succ k ih =>
     unfold readEntries at h
     split at h
     · simp at h
     · simp at h
-    · split at h
+    · rename_i v w _
+      split at h
       · simp at h
-      · split at h
+      · have hl : (bs.drop w).length = bs.length - w := List.length_drop
+        rw [← hl] at h
+        split at h
         · simp at h
         · simp at h
-        · rename_i vs r' hre
+        · rename_i vs r' rr' hre
           injection h with h
           injection h with _ h2
-          subst h2
-          have := ih _ _ _ hre
-          simp only [List.length_drop] at this
+          injection h2 with h2 h3
+          subst h2; subst h3
+          have := ih _ _ _ _ hre
           omega
 
-theorem decIdx_no_fault (d : List Nat) (dsz w k : Nat) (bs : List Nat) (h : k * w ≤ bs.length) :
+theorem decIdx_no_fault (d : Array Nat) (dsz w k : Nat) (bs : List Nat) (h : k * w ≤ bs.length) :
     decIdx d dsz w k bs ≠ .fault := by
   induction k generalizing bs with
   | zero => simp [decIdx]
@@ -180,7 +190,7 @@ theorem decIdx_no_fault (d : List Nat) (dsz w k : Nat) (bs : List Nat) (h : k * 
       · simp
       · simp
 
-theorem decIdx_length (d : List Nat) (dsz w k : Nat) (bs vs : List Nat) (h : decIdx d dsz w k bs = .ok vs) :
+theorem decIdx_length (d : Array Nat) (dsz w k : Nat) (bs vs : List Nat) (h : decIdx d dsz w k bs = .ok vs) :
     vs.length = k := by
   induction k generalizing bs vs with
   | zero => simp [decIdx] at h; subst h; rfl
